@@ -320,6 +320,9 @@ def run_B(spec, acc):
         # the inline flag `(?i)` (in front of the row, or inside a placeholder's regex) through every compiler: the rule recognises its rows in any letter case
         iq = [q for q in ipats if "\t" not in q and "  " not in q][:40]
         itexts = {("(?i)" + q): "(?i)" + q for q in iq}
+        # ... also with three placeholders of one kind in one rule
+        for q in ("a * * *", "* * *", "c */[a-c]+/ */[a-c]+/ */[a-c]+/ x", "b * * * ~"):
+            itexts["(?i)" + q] = "(?i)" + q
         itext = "\n".join(itexts)
         try:
             icomp5 = {
@@ -341,7 +344,7 @@ def run_B(spec, acc):
                     continue
                 rx = rule["regexp"] if kind == "implicit" else rule["attrs"][key_of[kind]]
                 acc.count("B_inline_flag_rules")
-                for r in probe_rows[:50]:
+                for r in probe_rows[:50] + ["a b c a", "a b c", "b a c", "c a b c x", "c a b d x", "b a b c a b", "a b c a b"]:
                     for r2 in (r, r.upper(), r.title()):
                         m = rx.match(r2)
                         got = None if m is None else tuple(m.groups())
